@@ -45,7 +45,7 @@ class Cfg:
     def __init__(self, naming="distinct", method_form=0.3, members=None, called_lambdas=True, odd_selectors=False,
                  containers=True, ifexp=True, keywords_in_called=True, first=True, lists=True, dict_attr=True,
                  comprehension=False, count_fn=True, first_on_seq=True, genexp=False,
-                 captures=False, helpers=False, record_ctor=False, free_scalar=False, first_of_packages=True, higher_order=False):
+                 captures=False, helpers=False, record_ctor=False, free_scalar=False, first_of_packages=True, higher_order=False, kwonly_in_called=False):
         self.naming = naming
         self.method_form = method_form
         self.members = members or MEMBERS
@@ -66,6 +66,7 @@ class Cfg:
         self.record_ctor = record_ctor
         self.first_of_packages = first_of_packages
         self.higher_order = higher_order
+        self.kwonly_in_called = kwonly_in_called
         self.free_scalar = free_scalar
 
 
@@ -546,6 +547,18 @@ def _called_lambda(cx: Ctx, env, ty, depth):
             dflt = cx.pick([f"({dflt}, {other})[k0]", f"[{other}, {dflt}][k0 - 1]"] + (["k0", "(k0 + 1)"] if tys[-1] == I else []))
         params = names[:-1] + [f"{names[-1]}={dflt}"]
         return f"(lambda {', '.join(params)}: {body})({', '.join(args[:-1])})"
+    if cx.cfg.keywords_in_called and cx.cfg.kwonly_in_called and cx.chance(2):
+        # keyword-only parameters (the last one possibly defaulted and omitted by the call)
+        cut = cx.int_(0, n - 1)
+        kwo = list(range(cut, n))
+        omit = tys[-1] in (I, F, B) and cx.chance(5)
+        decl = [names[i] for i in kwo]
+        if omit:
+            decl[-1] = f"{names[-1]}={gen(cx, env, tys[-1], 0)}"
+            kwo = kwo[:-1]
+        order = list(cx.draw(st.permutations(kwo)))
+        call = args[:cut] + [f"{names[i]}={args[i]}" for i in order]
+        return f"(lambda {', '.join(names[:cut] + ['*'] + decl)}: {body})({', '.join(call)})"
     if cx.cfg.keywords_in_called and cx.chance(4):
         npos = cx.int_(0, n - 1)
         order = list(range(npos, n))
